@@ -92,6 +92,18 @@ Error:
     // (Writes are accepted again by the next start and by acquire_stop.)
     channel_accept_writes(&self->in, 0);
     channel_read_unmap(&self->in, &self->reader, 0);
+    // Discard what is still queued for this reader. It belongs to the
+    // acquisition that just failed; left in place it would be the first thing
+    // the next acquisition's sink appends to its storage device. (Writes are
+    // refused, so nothing new can arrive and the loop ends.)
+    {
+        struct slice rest;
+        do {
+            rest = channel_read_map(&self->in, &self->reader);
+            channel_read_unmap(
+              &self->in, &self->reader, (size_t)(rest.end - rest.beg));
+        } while (rest.end > rest.beg);
+    }
     storage_stop(self->storage);
     self->is_running = 0;
     self->is_stopping = 0;
